@@ -620,9 +620,11 @@ class Engine:
                           for ti in range(len(POOL))}
 
         def lookups_during_teardown() -> None:
+            from asphalt.core import get_resource_nowait as lookup_shortcut
+
             for (t, name), res in list(mc.resources.items()):
                 try:
-                    during_teardown[(t, name)] = ("ok", ctx.get_resource_nowait(POOL[t], name, optional=True))
+                    during_teardown[(t, name)] = ("ok", (lookup_shortcut if (cid + t) % 2 else ctx.get_resource_nowait)(POOL[t], name, optional=True))
                 except Exception as e:  # noqa: BLE001
                     during_teardown[(t, name)] = ("exc", e)
             # a first lookup of a factory-made resource may just as well happen now (a callback that flushes through a lazily made
@@ -650,7 +652,13 @@ class Engine:
                 child_view["exc"] = e
             # ... and a resource may still be added while the teardown is running: a successful add like any other (announced once)
             try:
-                ctx.add_resource(late_value, f"late_{cid}", [POOL[0]])
+                if cid % 2:
+                    # (through the module-level shortcut: the context being torn down is the current one)
+                    from asphalt.core import add_resource as add_shortcut
+
+                    add_shortcut(late_value, f"late_{cid}", [POOL[0]])
+                else:
+                    ctx.add_resource(late_value, f"late_{cid}", [POOL[0]])
                 late["outcome"] = "ok"
             except Exception as e:  # noqa: BLE001
                 late["outcome"] = e
